@@ -137,17 +137,6 @@ pub fn ju(v: &Json, key: &str) -> u64 {
         .unwrap_or_else(|| vp_core::machinery_error(&format!("replay case lacks integer field '{key}'")))
 }
 
-pub fn ji(v: &Json) -> i64 {
-    v.as_i64()
-        .unwrap_or_else(|| vp_core::machinery_error("replay case: integer expected"))
-}
-
-pub fn js<'a>(v: &'a Json, key: &str) -> &'a str {
-    v[key]
-        .as_str()
-        .unwrap_or_else(|| vp_core::machinery_error(&format!("replay case lacks string field '{key}'")))
-}
-
 impl Local {
     /// Serialise for the child -> parent pipe of isolated workers.
     pub fn to_json(&self) -> Json {
